@@ -33,11 +33,12 @@ import (
 type answerFn func(from, to int64) ([]MRow, [][2]uint64)
 
 var (
-	svcMtx    sync.Mutex
-	svcAnswer answerFn
-	svcNames  []string
-	svcSQL    []string
-	svcOther  []string
+	svcMtx      sync.Mutex
+	svcAnswer   answerFn
+	svcNames    []string
+	svcSQL      []string
+	svcOther    []string
+	svcPayloads [][]byte
 )
 
 type sdrv struct{}
@@ -85,6 +86,14 @@ func (*sconn) QueryContext(ctx context.Context, q string, args []driver.NamedVal
 			fs = append(fs, []any{f[0], nm})
 		}
 		return &srows{cols: 2, rows: [][]driver.Value{{tree, fs}}}, nil
+	}
+	if strings.Contains(q, "SELECT payload FROM") && svcPayloads != nil {
+		svcSQL = append(svcSQL, q)
+		var rows [][]driver.Value
+		for _, b := range svcPayloads {
+			rows = append(rows, []driver.Value{b})
+		}
+		return &srows{cols: 1, rows: rows}, nil
 	}
 	svcOther = append(svcOther, q)
 	if strings.Contains(q, "type='update'") {
@@ -136,9 +145,9 @@ func (f *sfakeDB) Close()                                      {}
 type sregistry struct{ m *rmodel.DataDatabasesMap }
 
 func (r *sregistry) GetDB(ctx context.Context) (*rmodel.DataDatabasesMap, error) { return r.m, nil }
-func (r *sregistry) Run()                                                         {}
-func (r *sregistry) Stop()                                                        {}
-func (r *sregistry) Ping() error                                                  { return nil }
+func (r *sregistry) Run()                                                        {}
+func (r *sregistry) Stop()                                                       {}
+func (r *sregistry) Ping() error                                                 { return nil }
 
 var theProfSvc *rsvc.ProfService
 
@@ -371,4 +380,95 @@ func runService(c *Case) {
 	svcAnswer = nil
 	svcMtx.Unlock()
 	c.Diff = d
+}
+
+// ---------------------------------------------------------------------------- MergeProfiles (pprof payload merge, profMerge_v2)
+
+type MPSample struct {
+	Stack  []int   `json:"stack"` // name tokens, leaf first; -1 = location without line
+	Values []int64 `json:"values"`
+	Labels int     `json:"labels"`
+}
+type MPObs struct {
+	SQL      string     `json:"sql"`
+	Err      string     `json:"err"`
+	Panic    string     `json:"panic,omitempty"`
+	N        int        `json:"n"` // payloads handed over
+	Types    []string   `json:"types"`
+	TypeToks []int      `json:"typetoks"` // tokens (into Case.Types) of the merged profile's sample types, -1 = unknown string
+	Samples  []MPSample `json:"samples"`
+}
+
+func runMergeProfiles(c *Case) {
+	ps := profService()
+	o := &MPObs{}
+	var payloads [][]byte
+	for i := range c.Profs {
+		if c.Profs[i].payload != nil {
+			payloads = append(payloads, c.Profs[i].payload)
+		}
+	}
+	o.N = len(payloads)
+	svcMtx.Lock()
+	svcSQL = nil
+	svcPayloads = payloads
+	if svcPayloads == nil {
+		svcPayloads = [][]byte{}
+	}
+	svcMtx.Unlock()
+	o.Panic = withTimeout(func() {
+		p, err := ps.MergeProfiles(context.Background(), "{}", typeID(c), time.Unix(0, 0).UTC(), time.Unix(int64(len(c.Profs))+1, 0).UTC())
+		if err != nil {
+			o.Err = err.Error()
+			return
+		}
+		str := func(i int64) string {
+			if i >= 0 && int(i) < len(p.StringTable) {
+				return p.StringTable[i]
+			}
+			return "?"
+		}
+		for _, st := range p.SampleType {
+			name := str(st.Type) + ":" + str(st.Unit)
+			o.Types = append(o.Types, name)
+			tok := -1
+			for i, ty := range c.Types {
+				parts := strings.SplitN(ty, " ", 2)
+				if strings.TrimLeft(name, "x") == parts[0]+":"+parts[1] { // the big class pads a type name with x
+					tok = i
+				}
+			}
+			o.TypeToks = append(o.TypeToks, tok)
+		}
+		fn := map[uint64]string{}
+		for _, f := range p.Function {
+			fn[f.Id] = str(f.Name)
+		}
+		loc := map[uint64]int{}
+		for _, l := range p.Location {
+			if len(l.Line) == 0 {
+				loc[l.Id] = -1
+			} else {
+				loc[l.Id] = nameTok(c, fn[l.Line[0].FunctionId])
+			}
+		}
+		for _, s := range p.Sample {
+			ms := MPSample{Values: append([]int64{}, s.Value...), Labels: len(s.Label)}
+			for _, l := range s.LocationId {
+				t, ok := loc[l]
+				if !ok {
+					t = -3
+				}
+				ms.Stack = append(ms.Stack, t)
+			}
+			o.Samples = append(o.Samples, ms)
+		}
+	})
+	svcMtx.Lock()
+	if len(svcSQL) > 0 {
+		o.SQL = svcSQL[0]
+	}
+	svcPayloads = nil
+	svcMtx.Unlock()
+	c.MP = o
 }
